@@ -15,6 +15,7 @@ write syscall) and the surviving file must equal the constructed image at that s
 """
 import json, os, sys, shutil, tempfile, struct, hashlib
 from vf import core, build as B, strace_io
+from vf.num import gt, nmax as max, nmin as min
 
 PROPERTY = "C07"
 
@@ -86,19 +87,19 @@ def run_case(case):
                 viol.append(dict(mech='open:no-error-reported-for-empty-archive', msg='%s: reader returned an archive with 0 snapshots and no error' % tag))
         else:
             if err is not None:
-                if completed > 0:
+                if gt(completed, 0):
                     viol.append(dict(mech='open:error-although-snapshots-complete', msg='%s: %d snapshots were completely written but opening fails: %s' % (tag, completed, err)))
             else:
                 n = len(got)
                 if n < completed:
                     viol.append(dict(mech='open:loses-completed-snapshots', msg='%s: %d snapshots were completely written, reader exposes %d' % (tag, completed, n)))
-                elif n > completed:
+                elif gt(n, completed):
                     viol.append(dict(mech='open:exposes-incomplete-snapshot', msg='%s: the writes of only %d snapshots had completed (%d have their payload on disk), reader exposes %d' % (tag, completed, content, n)))
                 for j in range(min(n, len(ref))):
                     if got[j] != ref[j]:
                         viol.append(dict(mech='open:exposed-snapshot-differs', msg='%s: exposed snapshot %d differs from the uninterrupted run\'s (t %s vs %s)' % (tag, j, got[j][0], ref[j][0])))
                         break
-                if n > len(ref):
+                if gt(n, len(ref)):
                     viol.append(dict(mech='open:more-snapshots-than-ever-written', msg='%s: %d > %d' % (tag, n, len(ref))))
     elif kind == 'restart':
         counters['restarts'] = 1
